@@ -303,6 +303,30 @@ def r6_colour_filtered(run, F):
     run.ob("R6-COLOUR-FILTERED", "Colors::from", ok, F.where(cn[0]), "every field of Colors is config.filter(<constant>)")
 
 
+def r7_output_path_total(run, F):
+    """do_main runs the backend only `if let Some(path) = output_filepath` -- a missing path skips the backend silently and
+    the tool still exits 0.  derive_output_filepath may therefore only be None for the two reviewed reasons (no source
+    file at all, a path without a file name); every further fallible step (to_str(), file_stem(), parse ..) adds inputs
+    for which `penne build`/`penne run` do nothing and report success."""
+    b = F.bin.bodies.get("derive_output_filepath")
+    run.require(b is not None, "derive_output_filepath not found")
+    fallible = []
+    for c in hirq.calls(b["hir"]):
+        ty = F.bin.types[c["t"]] if c.get("t") is not None else ""
+        name = (hirq.callee(c) or hirq.callee_decl(c) or c.get("name") or "?")
+        if ty.replace(" ", "").startswith(("std::option::Option<", "std::result::Result<")) and not name.startswith("std::option::Option::"):
+            fallible.append(name)
+    allowed = {"core::slice::get", "std::path::Path::file_name"}
+    extra = sorted(set(f for f in fallible if f not in allowed))
+    run.ob("R7-OUTPUT-PATH-TOTAL", "derive_output_filepath", not extra and set(fallible) <= allowed, F.where(b),
+           "steps that can yield None/Err: %s; beyond the reviewed two: %s" % (sorted(set(fallible)), extra))
+    dm = F.bin.bodies.get("do_main")
+    run.require(dm is not None, "do_main not found")
+    cs = [hirq.callee(c) or hirq.callee_decl(c) for c in hirq.calls(dm["hir"])]
+    run.ob("R7-OUTPUT-PATH-TOTAL", "do_main derives the path", "derive_output_filepath" in cs and "generate_output" in cs, F.where(dm),
+           "do_main falls back to derive_output_filepath and hands the path to generate_output")
+
+
 def check(run):
     F = run.facts("B")
     r1_status(run, F)
@@ -311,3 +335,4 @@ def check(run):
     r4_outdir(run, F)
     r5_stdout(run, F)
     r6_colour_filtered(run, F)
+    r7_output_path_total(run, F)
